@@ -7,6 +7,8 @@ import (
 	"path/filepath"
 	"sort"
 	"strings"
+
+	"golang.org/x/tools/go/ssa"
 )
 
 // Status of an obligation.
@@ -40,6 +42,8 @@ type Ctx struct {
 	ControlFails []string
 	FuncsTouched map[string]bool
 	Notes        []string
+
+	constKeyMemo map[*ssa.Function]bool
 }
 
 func NewCtx(p *Prog) *Ctx {
